@@ -1,6 +1,6 @@
 # Per-property claims; exec'd by gen_manifest.py (claim(id, technique, text, note, design_ref)).
 PENDING = "check not built yet in this framework (DESIGN.md §8 build order); no verdict is claimed until its rule set runs clean both ways"
-for _p in ["C01","C02","C03","C04","C05","C06","C07","C08","C11","C14","C16","C18","C19","C20"]:
+for _p in ["C01","C02","C03","C04","C06","C07","C08","C11","C14","C16","C18","C19","C20"]:
     NOT_APPLICABLE[_p] = PENDING
 
 claim("C10",
@@ -38,3 +38,9 @@ claim("C15",
   "For all representable field values at once: no +,-,*,<< or conversion in any function that takes or yields a time.Time/data.Date can wrap or truncate (ranges derived from the wire field types, not from samples — this is exactly where 2^31, 2^32-1 and sums crossing 2^32 live); every value reaching time.Unix/UnixMilli/Add/PutUint32/PutUint64 carries the unit the sink expects; NewLease2 rejects exactly times outside [0,2^32-1] and its narrowing is only reached with fitting values; expiry = published + expires from the structure's own fields; each IsExpired is now.After(own expiry); Newest/OldestExpiration keep only Date() of the receiver's leases under After/Before. Does not evaluate dates (day-past/day-future outcomes) or prove that the extremum bounds all others beyond the comparator direction.",
   "Trusted: package time; go/ssa. Assumes 64-bit int and, from the property text, 8-byte millisecond dates below 2^63 (same-width reinterpretations admitted).",
   "DESIGN.md §5 C15")
+
+claim("C05",
+  "path-sensitive abstract evaluation of every Verify* method under each assumption about the cryptographic primitive and the offline-signature check + interprocedural backward provenance slicing of the primitive's key/message/signature operands",
+  "Decides for every input at once the soundness skeleton of verification: if the cryptographic primitive fails no path reports success; success paths always executed it; the transient (offline) key is used only on paths where (*OfflineSignature).VerifySignature succeeded against the structure's own identity key; the verifying key has no origin other than the receiver's own identity/blinded key/offline block; the verified message is built from every field of the receiver with exactly the specified DatabaseStore prefix byte (3/7/5, none for LeaseSet/RouterInfo); the signature operand is the receiver's own. A forged offline block, a swapped key source, a dropped prefix or an ignored primitive result are therefore caught without constructing such inputs. Cryptographic validity is trusted to the primitives; equality of re-serialised and received bytes is C01's clause.",
+  "Trusted: go-i2p/crypto verifiers and crypto/ed25519; go/ssa. Verifiers are discovered (exported Verify* methods reaching a primitive). The store-type prefix table (LeaseSet2=3, MetaLeaseSet=7, EncryptedLeaseSet=5) is the checker's frozen copy of the specification.",
+  "DESIGN.md §5 C05")
